@@ -264,12 +264,7 @@ let () =
              let (m', out) = zstep !mode !m o in
              m := m';
              pr_line out (int_of_nat (total_ticks m')) m';
-             if is_fault out then dead := true;
-             (* a panic caught inside retain leaves IndexMap's internal index
-                stale: the model does not describe what lookups do afterwards *)
-             (match out, toks with
-              | OutUnwound, "fuse" :: _ :: ("retain" | "retainmut") :: _ -> dead := true
-              | _ -> ())
+             if is_fault out then dead := true
            end);
       if Buffer.length buf > 60000 then (Buffer.output_buffer oc buf; Buffer.clear buf)
     done
